@@ -438,6 +438,10 @@ func (f *Fresh) rawWrites(fn *ssa.Function, visit func(in ssa.Instruction, targe
 			if bi, ok := cc.Value.(*ssa.Builtin); ok {
 				switch bi.Name() {
 				case "append":
+					// s[lo:hi:hi] has no spare capacity: append copies before writing
+					if sl, ok := cc.Args[0].(*ssa.Slice); ok && sl.Max != nil && sl.High != nil && (sl.Max == sl.High || sameValue(sl.Max, sl.High)) {
+						return
+					}
 					if e := f.elemOf(cc.Args[0].Type()); e != nil && f.storage(e) {
 						visit(in, cc.Args[0], "append (may write into spare capacity)")
 					}
